@@ -144,26 +144,18 @@ func (c RawConfiguration) handleCorrectableCall(ctx context.Context, corr *Corre
 	)
 
 	if state.data.ServerStream {
-		// Servers may keep streaming after this call has completed. Until the routers are
-		// deleted (deferred calls run in reverse order: start draining, delete the routers,
-		// stop draining) the replies are consumed here, so that no receiver goroutine blocks
-		// on the full reply channel while holding its router mutex.
-		stopDraining := make(chan struct{})
-		defer close(stopDraining)
+		// Servers may keep streaming while the quorum function is busy and after this call has
+		// completed. A receiver goroutine hands a reply over while holding its router mutex,
+		// which every new call on that node needs: it must never block on a full reply
+		// channel. Until the routers are deleted (deferred calls run in reverse order: delete
+		// the routers, then stop relaying) the replies are therefore taken from the reply
+		// channel at once and queued here, in order, for the loop below.
+		stopRelaying := make(chan struct{})
+		defer close(stopRelaying)
 		for _, n := range c {
 			defer n.channel.deleteRouter(state.md.MessageID)
 		}
-		defer func() {
-			go func() {
-				for {
-					select {
-					case <-state.replyChan:
-					case <-stopDraining:
-						return
-					}
-				}
-			}()
-		}()
+		state.replyChan = relayResponses(state.replyChan, stopRelaying)
 	}
 
 	if state.expectedReplies == 0 {
@@ -205,4 +197,30 @@ func (c RawConfiguration) handleCorrectableCall(ctx context.Context, corr *Corre
 			return
 		}
 	}
+}
+
+// relayResponses returns a channel that delivers the responses sent on in, in the same order.
+// Sending on in never blocks for longer than it takes to queue the response, however slowly
+// the returned channel is read. The relaying stops when stop is closed.
+func relayResponses(in <-chan response, stop <-chan struct{}) <-chan response {
+	out := make(chan response)
+	go func() {
+		var queue []response
+		for {
+			var next chan<- response
+			var head response
+			if len(queue) > 0 {
+				next, head = out, queue[0]
+			}
+			select {
+			case r := <-in:
+				queue = append(queue, r)
+			case next <- head:
+				queue = queue[1:]
+			case <-stop:
+				return
+			}
+		}
+	}()
+	return out
 }
